@@ -15,12 +15,17 @@ pub struct Prog {
     /// number of lines after which a line with a syntax error is planted
     pub syntax_error_after: Option<usize>,
     pub with_readonly: bool,
+    /// start with `set -m` (job control on: pipelines and subshells get their own process groups)
+    pub monitor: bool,
 }
 
 pub const TRAP_ID: u32 = 999_999;
 
 pub fn render(p: &Prog, rng: &mut Rng) -> String {
     let mut s = String::new();
+    if p.monitor {
+        s.push_str("set -m\n");
+    }
     if p.with_readonly {
         s.push_str("readonly ro=1\n");
     }
@@ -74,7 +79,7 @@ fn lanes(c: &Cmd, cur: u32, map: &mut BTreeMap<u32, u32>) {
             lanes(a, cur, map);
             rest.iter().for_each(|(_, c)| lanes(c, cur, map));
         }
-        Cmd::Not(c) | Cmd::Brace(c) | Cmd::Subshell(c) | Cmd::FuncDef(_, c) => lanes(c, cur, map),
+        Cmd::Not(c) | Cmd::Brace(c) | Cmd::Subshell(c) | Cmd::FuncDef(_, c) | Cmd::Dot { body: c, .. } => lanes(c, cur, map),
         Cmd::If(arms, els) => {
             for (a, b) in arms {
                 lanes(a, cur, map);
@@ -381,6 +386,7 @@ pub fn drive(
                 lines,
                 trap,
                 with_readonly: cfg.errors || cfg.vars,
+                monitor: cfg.errors && rng.chance(25),
             };
             let text = render(&p, &mut rng);
             for k in 0..=schedules {
